@@ -38,7 +38,7 @@ func c09Opts(st EventStore, hookRuns *int) []Option {
 	return opts
 }
 
-//verif:entry property=C09 tier=both bounds="every subset of 5 other bus options (the context hook also as nil) with WithStore at every position; K publishes (K_quick=2,K_thorough=3) of value, pointer, custom-named and value-named events with symbolic fields, on a store that honours its context; store read from inside the handler" cover="published" K_quick=2 K_thorough=3
+//verif:entry property=C09 tier=both bounds="every subset of 5 other bus options (the context hook also as nil) with WithStore at every position; K publishes (K_quick=2,K_thorough=3) of value, pointer, nil-pointer, custom-named and value-named events with symbolic fields, optionally an upcasting replay before the log is inspected, on a store that honours its context; store read from inside the handler" cover="published" K_quick=2 K_thorough=3
 func harnessC09Config() {
 	K := vParam("K", 2)
 	ctx := context.Background()
@@ -70,10 +70,15 @@ func harnessC09Config() {
 	}
 	var wants []want
 	for i := 0; i < K; i++ {
-		kind := vInt(0, 3)
+		kind := vInt(0, 4)
 		n := vInt(-5, 5)
 		seenAtHandler = -1
 		switch kind {
+		case 4:
+			// a nil pointer is an event like any other: its record holds JSON null
+			var e *evA
+			Publish(bus, e)
+			wants = append(wants, want{EventType(e), 0, "", 4})
 		case 0:
 			e := evA{N: n, S: vStr("s")}
 			Publish(bus, e)
@@ -95,6 +100,13 @@ func harnessC09Config() {
 		vAssert(seenAtHandler == i+1, "record-visible-to-handler")
 		vAssert(lastTypeAtHandler == wants[i].typ, "record-type-visible-to-handler")
 	}
+	// an upcasting replay in between is a view: it must leave the records as they are
+	if vBool() {
+		vAssert(RegisterUpcastFunc(bus, "eventbus.evA", "eventbus.evA.v2", func(d json.RawMessage) (json.RawMessage, string, error) {
+			return json.RawMessage(`{"n":999}`), "eventbus.evA.v2", nil
+		}) == nil, "register-ok")
+		vAssert(bus.ReplayWithUpcast(ctx, OffsetOldest, func(*StoredEvent) error { return nil }) == nil, "replay-ok")
+	}
 	evs, _, err := st.Read(ctx, OffsetOldest, 0)
 	vAssert(err == nil && len(evs) == K, "exactly-one-record-per-publish")
 	for i := range evs {
@@ -111,6 +123,9 @@ func harnessC09Config() {
 			var d evNamed
 			vAssert(json.Unmarshal(evs[i].Data, &d) == nil, "record-decodes")
 			vAssert(d.N == wants[i].n, "record-decodes-to-published-value")
+		case 4:
+			var d *evA = &evA{N: 1}
+			vAssert(json.Unmarshal(evs[i].Data, &d) == nil && d == nil, "record-decodes-to-published-value")
 		case 3:
 			var d evDyn
 			vAssert(json.Unmarshal(evs[i].Data, &d) == nil, "record-decodes")
